@@ -52,6 +52,10 @@ def run(chk, build):
         for c in combos:
             for k in range(reps if n <= 3 else max(1, reps // 2)):
                 jobs.append((c, [1e-6, 1e-5, 1e-4, 5e-6][k % 4]))
+    # date / time detection in several threads at once (dateutil, warnings): always part of the run
+    for c in (("o", "p"), ("p", "o"), ("o", "o", "p"), ("o", "p", "p", "o")):
+        for k in range(3 if tier == "quick" else 20):
+            jobs.append((c, [1e-6, 5e-6, 1e-5][k % 3]))
     for (names, switch), res in clirun.parallel(threaded, jobs, workers=4):
         chk.count(key=(names, switch, len(chk.nontrivial)), sample={"threads": list(names), "switch_interval": switch} if len(chk.samples) < 3 else None)
         for i, n in enumerate(names):
